@@ -62,7 +62,7 @@ import (
 	ref "verifref"
 )
 
-var c18Kinds = []string{"sign", "verify", "vexp", "vcache", "batch", "keygen", "x25519", "x25519base", "mulbase", "triple", "srsign", "srverify", "h2c", "merlin", "vrfprove", "vrfverify", "pointuse"}
+var c18Kinds = []string{"sign", "verify", "vexp", "vcache", "batch", "keygen", "x25519", "x25519base", "mulbase", "triple", "srsign", "srverify", "h2c", "merlin", "vrfprove", "vrfverify", "pointuse", "nilrand"}
 
 type c18Op struct {
 	Kind string
@@ -99,7 +99,7 @@ type c18WCase struct {
 
 var c18MixedKinds = []string{
 	"vcache", "vcache", "vcache", "vcache", "vexp", "vexp", "vexp", "batch", "batch", "sign", "sign", "verify", "verify",
-	"keygen", "x25519", "x25519base", "mulbase", "mulbase", "triple", "triple", "srsign", "srverify", "h2c", "h2c", "merlin", "vrfprove", "vrfverify", "pointuse", "pointuse"}
+	"keygen", "x25519", "x25519base", "mulbase", "mulbase", "triple", "triple", "srsign", "srverify", "h2c", "h2c", "merlin", "vrfprove", "vrfverify", "pointuse", "pointuse", "nilrand"}
 
 func c18GenOp(t *rapid.T, kinds []string, keys []int, badOneIn int) c18Op {
 	op := c18Op{}
@@ -163,7 +163,7 @@ func c18GenWorkload(t *rapid.T) c18WCase {
 	case "sign-storm":
 		ng = rapid.SampledFrom([]int{4, 8, 12, 16}).Draw(t, "goroutines")
 		minOps, maxOps = 2, 5
-		kinds, keys, badOneIn = []string{"sign", "sign", "sign", "keygen", "mulbase", "x25519base", "srsign", "verify"}, []int{0, 1, 2, 3, 4, 5}, 6
+		kinds, keys, badOneIn = []string{"sign", "sign", "sign", "keygen", "mulbase", "x25519base", "srsign", "verify", "nilrand", "nilrand"}, []int{0, 1, 2, 3, 4, 5}, 6
 	case "multiscalar-storm":
 		// every goroutine verifies LARGE batches (>= 95 entries: the Pippenger
 		// multiscalar path and whatever scratch state it uses) at the same time
@@ -315,6 +315,8 @@ func c18Touches(op c18Op) []string {
 		return []string{"sr25519-signing-context"}
 	case "merlin":
 		return []string{"merlin-base-transcript"}
+	case "nilrand":
+		return []string{"default-entropy-source(crypto/rand through the library)"}
 	case "mulbase":
 		return []string{"ED25519_BASEPOINT_TABLE(explicit)"}
 	case "triple":
@@ -835,6 +837,10 @@ func c18GroundTruth(op c18Op, m *c18Mat, seq []byte) (ok bool, what string) {
 		if w := stded.NewKeyFromSeed(h.Expand(m.seed^op.X, 32)); !bytes.Equal(seq, w) {
 			return false, fmt.Sprintf("derived key differs from crypto/ed25519's: got %x want %x", seq, []byte(w))
 		}
+	case "nilrand":
+		if string(seq) != "OK" {
+			return false, string(seq)
+		}
 	}
 	return true, ""
 }
@@ -896,6 +902,50 @@ func c18Exec(op c18Op, m *c18Mat, sh *c18Shared) []byte {
 		return out
 	case "keygen":
 		return ed25519.NewKeyFromSeed(h.Expand(m.seed^op.X, 32))
+	case "nilrand":
+		// The documented default entropy source ("if rand is nil, crypto/rand.Reader will be used") from many
+		// goroutines at once.  The values are the operating system's, so the op reports a VERDICT, not the value:
+		// the generated pair is consistent by facts that do not come from the call itself.  (Whatever sits between
+		// the callers and crypto/rand - a buffer, a pool - is shared by all of them.)
+		switch op.X % 4 {
+		case 0, 1:
+			pub, priv, err := x25519.GenerateKey(nil)
+			if err != nil || priv == nil || pub == nil {
+				return []byte(fmt.Sprintf("BAD: x25519.GenerateKey(nil): %v", err))
+			}
+			var dst, in [32]byte
+			copy(in[:], priv[:])
+			x25519.ScalarBaseMult(&dst, &in)
+			if !bytes.Equal(dst[:], pub[:]) {
+				return []byte(fmt.Sprintf("BAD: x25519.GenerateKey(nil): public %x is not the base multiple %x of the private key", pub[:], dst[:]))
+			}
+			if bytes.Equal(priv[:], make([]byte, 32)) {
+				return []byte("BAD: x25519.GenerateKey(nil): all-zero private key")
+			}
+			return []byte("OK")
+		case 2:
+			pub, priv, err := ed25519.GenerateKey(nil)
+			if err != nil || len(priv) != 64 || len(pub) != 32 {
+				return []byte(fmt.Sprintf("BAD: ed25519.GenerateKey(nil): %v", err))
+			}
+			if w := stded.NewKeyFromSeed(priv[:32]); !bytes.Equal(w, priv) || !bytes.Equal(w[32:], pub) {
+				return []byte("BAD: ed25519.GenerateKey(nil): not the RFC 8032 key of its own seed")
+			}
+			return []byte("OK")
+		default:
+			kp, err := sr25519.GenerateKeyPair(nil)
+			if err != nil || kp == nil {
+				return []byte(fmt.Sprintf("BAD: sr25519.GenerateKeyPair(nil): %v", err))
+			}
+			b, err := kp.MarshalBinary()
+			if err != nil {
+				return []byte("BAD: sr25519 KeyPair.MarshalBinary: " + err.Error())
+			}
+			if _, err := sr25519.NewKeyPairFromBytes(b); err != nil {
+				return []byte("BAD: sr25519.GenerateKeyPair(nil): the pair does not decode: " + err.Error())
+			}
+			return []byte("OK")
+		}
 	case "x25519":
 		sc := h.Expand(m.seed^op.X^0xc, 32)
 		var pt []byte
